@@ -1,5 +1,6 @@
 import IncrVerif.Driver.Pure
 import IncrVerif.Engine.Run
+import IncrVerif.Spec.Props
 /-! Driver executable: runs the model on the same line protocols as the Rust harness. -/
 open IncrVerif.Driver
 
@@ -23,6 +24,15 @@ def main (args : List String) : IO UInt32 := do
     let text ← readAll stdin ""
     for l in IncrVerif.Engine.runHistory (IncrVerif.Engine.parseHistory text) do
       stdout.putStrLn l
+    stdout.flush
+    return 0
+  | "engine-check" :: histFile :: traceFile :: props => do
+    let h := IncrVerif.Engine.parseHistory (← IO.FS.readFile histFile)
+    let tr := IncrVerif.Spec.parseTrace (← IO.FS.readFile traceFile)
+    for p in props do
+      match IncrVerif.Spec.evalProp p h tr with
+      | none => stdout.putStrLn s!"{p} ok"
+      | some why => stdout.putStrLn s!"{p} fail {why}"
     stdout.flush
     return 0
   | ["pure-check"] => lineLoop stdin stdout pureCheckOne; stdout.flush; return 0
